@@ -78,7 +78,24 @@ pub fn gencfg(contention: u64) -> GenCfg {
     GenCfg { contention, ..Default::default() }
 }
 
+/// A run of consecutive id allocations without a flush in between, longer than any window the
+/// recovery path might be tempted to bound (allocation watermark stride = 64, "a few misses in a
+/// row"): `Holes` = add + remove pairs and rejected adds (ids consumed, no object left), `Kept` =
+/// plain adds (the watermark has to be re-published when the stride is crossed), `Mixed` = both.
+/// A keeper document is added right after the run; crash points after its acknowledgement and
+/// before the next flush are where a shortened repair scan loses it.
+#[derive(Clone, Copy, Debug, PartialEq, Eq)]
+pub enum Burst {
+    Holes,
+    Kept,
+    Mixed,
+}
+
 pub async fn clean_run(rng: &mut Rng, backend: Backend, n_ops: usize, st: &mut Stats) -> Option<Clean> {
+    clean_run_with(rng, backend, n_ops, None, st).await
+}
+
+pub async fn clean_run_with(rng: &mut Rng, backend: Backend, n_ops: usize, burst: Option<(Burst, usize)>, st: &mut Stats) -> Option<Clean> {
     let cfg = Cfg::random(rng);
     let contention = pick_contention(rng);
     let set0 = if rng.chance(1, 3) { IndexSet::ALL } else { IndexSet(rng.below(512) as u16) };
@@ -101,12 +118,56 @@ pub async fn clean_run(rng: &mut Rng, backend: Backend, n_ops: usize, st: &mut S
         touched: None,
     }];
     let g = gencfg(contention);
+    let mut last_added: Option<u64> = None;
     // every workload contains one reopen that creates one index and removes another in the same
     // open callback (an index swap), placed at a random position
     let swap_at = n_ops / 3 + rng.usize(n_ops / 2 + 1);
-    for i in 0..n_ops {
-        let mut op = gen_op(rng, &d.model, d.set, &g);
-        if i == swap_at {
+    // planned operations that take precedence over generated ones (the allocation burst)
+    let mut planned: std::collections::VecDeque<Planned> = Default::default();
+    let burst_at = burst.map(|_| 2 + rng.usize(n_ops.saturating_sub(3).max(1)));
+    let mut i = 0;
+    let mut burst_done = false;
+    while i < n_ops || !planned.is_empty() {
+        if Some(i) == burst_at && !burst_done {
+            burst_done = true;
+            let (kind, k) = burst.unwrap();
+            planned.push_back(Planned::Fixed(Op::Flush));
+            for j in 0..k {
+                let hole = match kind {
+                    Burst::Holes => true,
+                    Burst::Kept => false,
+                    Burst::Mixed => j % 3 != 0,
+                };
+                planned.push_back(Planned::FreshAdd);
+                if hole {
+                    planned.push_back(Planned::RemoveLastAdded);
+                }
+            }
+            planned.push_back(Planned::FreshAdd); // the keeper
+            st.count(&format!("allocation_bursts:{kind:?}"));
+            st.max("max_allocation_burst_len", k as u64);
+        }
+        let from_plan = planned.pop_front();
+        let in_burst = from_plan.is_some();
+        let mut op = match from_plan {
+            Some(Planned::Fixed(op)) => op,
+            Some(Planned::FreshAdd) => {
+                // unique fields drawn from a huge space: accepted unless the wrong-dimension coin hits
+                let mut doc = crate::gen_doc(rng, 1 << 40);
+                doc.codes.clear();
+                doc.slot = 1_000_000 + i as u64 * 1000 + planned.len() as u64;
+                Op::Add(doc)
+            }
+            Some(Planned::RemoveLastAdded) => match last_added {
+                Some(id) if d.model.docs.contains_key(&id) => Op::Remove(id),
+                _ => continue,
+            },
+            None => gen_op(rng, &d.model, d.set, &g),
+        };
+        if !in_burst {
+            i += 1;
+        }
+        if !in_burst && i - 1 == swap_at {
             let present: Vec<u16> = (0..9).map(|b| 1u16 << b).filter(|b| d.set.has(*b)).collect();
             let absent: Vec<u16> = (0..9).map(|b| 1u16 << b).filter(|b| !d.set.has(*b)).collect();
             let mut ns = d.set;
@@ -139,6 +200,9 @@ pub async fn clean_run(rng: &mut Rng, backend: Backend, n_ops: usize, st: &mut S
                 return None;
             }
         }
+        if let Op::Add(_) = &op {
+            last_added = d.model.docs.keys().find(|k| !before_ids.contains(k)).copied();
+        }
         let touched = match &op {
             Op::Add(_) => d.model.docs.keys().find(|k| !before_ids.contains(k)).copied(),
             Op::Update(id, ..) | Op::Remove(id) => Some(*id),
@@ -154,6 +218,12 @@ pub async fn clean_run(rng: &mut Rng, backend: Backend, n_ops: usize, st: &mut S
         });
     }
     Some(Clean { rec, recs, cfg, backend, set0, history: d.history.clone() })
+}
+
+enum Planned {
+    Fixed(Op),
+    FreshAdd,
+    RemoveLastAdded,
 }
 
 /// What had been acknowledged when mutation k landed, and the operation in flight.
@@ -652,11 +722,22 @@ impl PredictWith for Driver {
 
 pub fn case(case: u64, rng: &mut Rng, st: &mut Stats, tier: vcore::Tier) {
     let backend = [Backend::Plain, Backend::Meta, Backend::Enc][(case % 3) as usize];
-    let n_ops = 12 + rng.usize(tier.pick(14, 29));
+    // one workload in eight carries an allocation burst (see `Burst`); it is kept short otherwise
+    let burst = if case % 8 == 5 {
+        let kind = [Burst::Holes, Burst::Kept, Burst::Mixed][((case / 8) % 3) as usize];
+        let k = match kind {
+            Burst::Kept => 60 + rng.usize(tier.pick(12, 80)),
+            _ => *rng.pick(&[17usize, 24, 33, 48, 65, 70]) + rng.usize(tier.pick(4, 40)),
+        };
+        Some((kind, k))
+    } else {
+        None
+    };
+    let n_ops = if burst.is_some() { 6 + rng.usize(5) } else { 12 + rng.usize(tier.pick(14, 29)) };
     let wl_rng = rng.fork();
     block_on(async {
         let mut r = wl_rng.clone();
-        let Some(clean) = clean_run(&mut r, backend, n_ops, st).await else {
+        let Some(clean) = clean_run_with(&mut r, backend, n_ops, burst, st).await else {
             return;
         };
         let m = clean.rec.landed() as usize;
